@@ -18,8 +18,27 @@ RULE = ("27 element types (==-comparable and not: basics incl. +0/-0 floats, nam
         "whose containers hold >= 2 elements in total; consistency ops (containseq, uniqueeq, seteq, unioneq, intersecteq) decide the clauses relative to the EMITTED Equal on the emitted functions themselves over float / complex / named-float elements and structs holding floats, NaN included; every answer of an op that returns a slice carries an alias flag (result shares the "
         "backing array of an input / fresh) next to the input as observed after the call")
 
+KNOWN_TEXT = {
+    "C14/unique-own-equal-no-hash": "deriveUnique on a ==-comparable element type with its own Equal but no own Hash buckets by the structural "
+                                    "hash: mutually Equal elements are kept",
+    "C14/unique-named-basic-own-hash-ignored": "deriveUnique on a named basic type with its own Equal and Hash() int32: the hash function "
+                                               "generated for the type itself ignores the method, mutually Equal elements are kept",
+}
+
+
+def classify(op, impl, model, spec):
+    """type names LNH<i> / LBH<i> are the element types of the two finding classes (harness/cmd/genlists)"""
+    f = op.rstrip("\n").split(" ", 4)
+    if f[2] in ("unique", "uniqueeq") and impl == model if f[2] == "unique" else f[2] == "uniqueeq":
+        if f[3].startswith("LNH"):
+            return "C14/unique-own-equal-no-hash"
+        if f[3].startswith("LBH"):
+            return "C14/unique-named-basic-own-hash-ignored"
+    return None
+
+
 def run(rep):
-    c13.run_family(rep, "C14", PLUGINS, OPS, RULE)
+    c13.run_family(rep, "C14", PLUGINS, OPS, RULE, classify=classify, known_text=KNOWN_TEXT)
     rep.notes.append("union / intersect over lists keep duplicates that the first list already has (the emitted code documents "
                      "\"assumes that the first list only contains unique items\"); the list specification used here is first list's order, "
                      "then the new items once each, which that behaviour satisfies")
